@@ -716,7 +716,7 @@ macro_rules! ecdsa_equal_terms_sig {
 /// *different* points whose x coordinates agree in their low 64 bits (both zero) forces a key collision that is
 /// not a match, at chosen positions (i, j) - including the first table entry. Everything is computed with the
 /// library's public arithmetic, as an attacker would. Returns (uncompressed key, 64-byte truncated signature, hash).
-fn p256_trunc_bucket_collision(rm: usize, i: u64, j: u64, tstart: u64, hv: &[u8; 32], s0seed: &[u8]) -> Option<(Vec<u8>, Vec<u8>)> {
+fn p256_trunc_bucket_collision(mode: usize, rm: usize, i: u64, j: u64, tstart: u64, hv: &[u8; 32], s0seed: &[u8]) -> Option<(Vec<u8>, Vec<u8>)> {
     use crrl::p256::{Point, Scalar};
     let nb = 256 - rm;
     let m = 255 - nb;
@@ -737,6 +737,20 @@ fn p256_trunc_bucket_collision(rm: usize, i: u64, j: u64, tstart: u64, hv: &[u8;
     };
     let (t1p, t1) = find(tstart | 1);
     let (t2p, _) = find(t1.wrapping_add(1));
+    // other modes: V_j is the point at infinity; U_i or V_j is one of the two points with x = 0 (the x-only
+    // ladder has a branch for them); U_i = V_j, a real match at the chosen table position
+    let xzero = {
+        let mut e = [0u8; 33];
+        e[0] = 0x02;
+        Point::decode(&e)
+    };
+    let (t1p, t2p) = match mode {
+        1 => (t1p, Point::NEUTRAL),
+        2 => (xzero?, t2p),
+        3 => (t1p, xzero?),
+        4 => (t1p, t1p),
+        _ => (t1p, t2p),
+    };
     let pow2 = |e: usize| -> Scalar {
         let mut b = [0u8; 33];
         b[e >> 3] = 1u8 << (e & 7);
@@ -837,7 +851,9 @@ fn ex_p256(n: &mut Net, out: &mut RunOut, tier: Tier) {
         h32.copy_from_slice(&hb);
         let seed = n.rng.bytes(8);
         let ts = n.rng.u64();
-        if let Some((qk, ts_sig)) = p256_trunc_bucket_collision(rm, i, j, ts, &h32, &seed) {
+        let mode = n.t.usize(5);
+        let (i, j) = if mode == 1 || mode == 4 { (i, [0u64, 1, 99, 100, 101, 199, 200, 201, u64::MAX][n.t.usize(9)]) } else { (i, j) };
+        if let Some((qk, ts_sig)) = p256_trunc_bucket_collision(mode, rm, i, j, ts, &h32, &seed) {
             out.probe("probe.exchange.p256_trunc_table_collision_crafted");
             if let Some(Some(pkx)) = g!(out, "call.p256.PublicKey_decode", hex(&qk), PublicKey::decode(&qk)) {
                 let r = g!(out, "call.p256.verify_trunc_hash", format!("rm={} {} {} key {}", rm, hex(&ts_sig), hex(&h32), hex(&qk)), pkx.verify_trunc_hash(&ts_sig, rm, &h32));
